@@ -1,9 +1,10 @@
 //! The enumerated text corpus shared by C12, C13 and C14: grammar-derived base documents,
-//! their single-token mutants, their one-gap layout deviations, the code-point sweep and
-//! the repository's `.wac` files.
+//! their single-token mutants, the tight rendering of both (every separator dropped that the
+//! reference tokenizer does not need), the one-gap layout deviations of the base documents,
+//! the code-point sweep and the repository's `.wac` files.
 
 use crate::grammar::{concretise, Grammar, T};
-use crate::reference::{KEYWORDS, SYMBOLS};
+use crate::reference::{self, Tok, KEYWORDS, SYMBOLS};
 use std::collections::{BTreeMap, HashSet};
 use std::path::PathBuf;
 
@@ -98,28 +99,222 @@ pub fn substitutes_small() -> Vec<String> {
         .collect()
 }
 
-/// All single-token deletions, duplications, substitutions and adjacent swaps.
-pub fn for_each_mutant(toks: &[String], subs: &[String], mut f: impl FnMut(&'static str, String)) {
+/// Which texts also get the tight rendering (see [`Tight`]).
+#[derive(Clone, Copy)]
+pub enum TightScope<'a> {
+    /// base documents, every mutant and every subtree deletion
+    All,
+    /// base documents and the substitution mutants whose substitute is in this (reduced) set
+    Reduced(&'a [String]),
+}
+
+impl TightScope<'_> {
+    fn mutants(&self) -> bool {
+        matches!(self, TightScope::All)
+    }
+    fn substitute(&self, s: &str) -> bool {
+        match self {
+            TightScope::All => true,
+            TightScope::Reduced(set) => set.iter().any(|x| x == s),
+        }
+    }
+}
+
+/// Kind label of the tight rendering of a text of kind `kind`.
+pub fn tight_kind(kind: &'static str) -> &'static str {
+    match kind {
+        "base" => "base-tight",
+        "delete" => "delete-tight",
+        "duplicate" => "duplicate-tight",
+        "swap" => "swap-tight",
+        "substitute" => "substitute-tight",
+        "delete-subtree" => "delete-subtree-tight",
+        _ => mc_core::machinery_error(&format!("no tight rendering for kind {kind}")),
+    }
+}
+
+pub const TIGHT_KINDS: [&str; 6] =
+    ["base-tight", "delete-tight", "duplicate-tight", "swap-tight", "substitute-tight", "delete-subtree-tight"];
+
+#[derive(Default, Clone, Copy)]
+pub struct TightStats {
+    /// tight texts produced (they differ from the one-space rendering)
+    pub texts: u64,
+    /// token lists whose tight rendering is the one-space rendering (no separator can go)
+    pub identical_to_spaced: u64,
+    pub separators_dropped: u64,
+    /// separators kept because the reference tokenizer would read the concatenation differently
+    pub separators_kept: u64,
+    /// of the dropped ones: in front of a piece that is itself a lexical error (same error, same place)
+    pub dropped_before_lexical_error: u64,
+}
+
+impl TightStats {
+    pub fn merge(&mut self, o: &TightStats) {
+        self.texts += o.texts;
+        self.identical_to_spaced += o.identical_to_spaced;
+        self.separators_dropped += o.separators_dropped;
+        self.separators_kept += o.separators_kept;
+        self.dropped_before_lexical_error += o.dropped_before_lexical_error;
+    }
+    pub fn json(&self) -> serde_json::Value {
+        serde_json::json!({
+            "texts": self.texts,
+            "token_lists_without_a_droppable_separator": self.identical_to_spaced,
+            "separators_dropped": self.separators_dropped,
+            "separators_kept_because_the_tokens_would_merge": self.separators_kept,
+            "separators_dropped_in_front_of_a_lexical_error": self.dropped_before_lexical_error,
+        })
+    }
+}
+
+/// The tight rendering of a token list: every separator is dropped unless the REFERENCE
+/// tokenizer would then read the text differently. Greedy, left to right, decided on the
+/// whole run of tokens since the last kept separator (so `use : func` becomes `use: func`,
+/// not `use:func`, which is one package name; `a , b` becomes `a,b`; `u8 u8` stays).
+/// From the first piece that is not a token by itself (an unterminated string, a stray
+/// character, an invalid version ...) onwards every separator is kept; the separator in front
+/// of that piece goes if the reference reports the same lexical error at the same place.
+/// Invariant (checked on every text produced, a failure is a machinery error): the tight
+/// text tokenizes, per the reference, to exactly the token sequence (kinds and spellings,
+/// up to the first lexical error, and that error) of the one-space rendering.
+#[derive(Default)]
+pub struct Tight {
+    toks: Vec<Tok>,
+    toks2: Vec<Tok>,
+    pub stats: TightStats,
+}
+
+impl Tight {
+    /// `text` tokenizes without error or unspecified boundary into exactly `pieces`.
+    fn exact(&mut self, text: &str, pieces: &[&str]) -> bool {
+        let (unspecified, err) = reference::tokenize_partial(text, &mut self.toks);
+        if err.is_some() || unspecified.is_some() || self.toks.len() != pieces.len() {
+            return false;
+        }
+        let mut o = 0;
+        self.toks.iter().zip(pieces).all(|(t, p)| {
+            let ok = t.start == o && t.end == o + p.len();
+            o += p.len();
+            ok
+        })
+    }
+
+    /// `cluster` + `piece` (a lexical error by itself, at its first token) tokenizes into the
+    /// pieces of the cluster followed by the same error at the same place of the piece.
+    fn same_error(&mut self, text: &str, cluster: &[&str], piece: &str) -> bool {
+        let (u1, Some(alone)) = reference::tokenize_partial(piece, &mut self.toks) else { return false };
+        if u1.is_some() || !self.toks.is_empty() {
+            return false;
+        }
+        let (u2, Some(joined)) = reference::tokenize_partial(text, &mut self.toks) else { return false };
+        let at = text.len() - piece.len();
+        if u2.is_some() || self.toks.len() != cluster.len() || joined.what != alone.what || joined.offset != at + alone.offset {
+            return false;
+        }
+        let mut o = 0;
+        self.toks.iter().zip(cluster).all(|(t, p)| {
+            let ok = t.start == o && t.end == o + p.len();
+            o += p.len();
+            ok
+        })
+    }
+
+    /// None if no separator can be dropped.
+    pub fn render(&mut self, pieces: &[&str]) -> Option<String> {
+        let mut s = String::with_capacity(pieces.iter().map(|p| p.len() + 1).sum());
+        let (mut cluster_start, mut cluster_first) = (0, 0);
+        let mut broken = false; // a lexical error lies behind: keep every further separator
+        let (mut dropped, mut kept, mut dropped_err) = (0u64, 0u64, 0u64);
+        for (i, p) in pieces.iter().enumerate() {
+            if i > 0 && !broken {
+                let before = s.len();
+                s.push_str(p);
+                if self.exact(&s[cluster_start..], &pieces[cluster_first..=i]) {
+                    dropped += 1;
+                    continue;
+                }
+                if self.same_error(&s[cluster_start..], &pieces[cluster_first..i], p) {
+                    dropped += 1;
+                    dropped_err += 1;
+                    broken = true;
+                    continue;
+                }
+                s.truncate(before);
+            }
+            if i > 0 {
+                s.push(' ');
+                kept += 1;
+            }
+            cluster_start = s.len();
+            cluster_first = i;
+            s.push_str(p);
+            if !broken && !self.exact(p, &pieces[i..=i]) {
+                broken = true;
+            }
+        }
+        if dropped == 0 {
+            self.stats.identical_to_spaced += 1;
+            return None;
+        }
+        self.verify(pieces, &s);
+        self.stats.texts += 1;
+        self.stats.separators_dropped += dropped;
+        self.stats.separators_kept += kept;
+        self.stats.dropped_before_lexical_error += dropped_err;
+        Some(s)
+    }
+
+    /// The invariant of the tight rendering, on the whole text.
+    fn verify(&mut self, pieces: &[&str], tight: &str) {
+        let spaced = pieces.join(" ");
+        let (u1, e1) = reference::tokenize_partial(&spaced, &mut self.toks);
+        let (u2, e2) = reference::tokenize_partial(tight, &mut self.toks2);
+        let same_tokens = self.toks.len() == self.toks2.len()
+            && self.toks.iter().zip(&self.toks2).all(|(a, b)| a.kind == b.kind && spaced[a.start..a.end] == tight[b.start..b.end]);
+        let same_error = match (&e1, &e2) {
+            (None, None) => true,
+            (Some(a), Some(b)) => a.what == b.what && spaced[a.offset..] == tight[b.offset..],
+            _ => false,
+        };
+        if !same_tokens || !same_error || u1 != u2 {
+            mc_core::machinery_error(&format!(
+                "tight rendering {tight:?} of {spaced:?} does not tokenize (reference) to the same token sequence"
+            ));
+        }
+    }
+}
+
+/// All single-token deletions, duplications, substitutions and adjacent swaps; each in the
+/// one-space rendering and, as far as `scope` says, in the tight rendering (kind `<kind>-tight`).
+pub fn for_each_mutant(toks: &[String], subs: &[String], scope: TightScope, tight: &mut Tight, mut f: impl FnMut(&'static str, String)) {
     let n = toks.len();
-    let render = |v: &[&str]| v.join(" ");
+    let mut emit = |kind: &'static str, v: &[&str], want_tight: bool| {
+        f(kind, v.join(" "));
+        if want_tight {
+            if let Some(t) = tight.render(v) {
+                f(tight_kind(kind), t);
+            }
+        }
+    };
     let base: Vec<&str> = toks.iter().map(|s| s.as_str()).collect();
     for i in 0..n {
         let mut v = base.clone();
         v.remove(i);
-        f("delete", render(&v));
+        emit("delete", &v, scope.mutants());
         let mut v = base.clone();
         v.insert(i, base[i]);
-        f("duplicate", render(&v));
+        emit("duplicate", &v, scope.mutants());
         if i + 1 < n && base[i] != base[i + 1] {
             let mut v = base.clone();
             v.swap(i, i + 1);
-            f("swap", render(&v));
+            emit("swap", &v, scope.mutants());
         }
+        let mut v = base.clone();
         for s in subs {
             if s != base[i] {
-                let mut v = base.clone();
                 v[i] = s;
-                f("substitute", render(&v));
+                emit("substitute", &v, scope.substitute(s));
             }
         }
     }
@@ -128,12 +323,23 @@ pub fn for_each_mutant(toks: &[String], subs: &[String], mut f: impl FnMut(&'sta
 /// Deletion of the whole token range of one derived production (`ranges` from the
 /// reference derivation): reaches the "empty body" near misses (`with { }`, `-> ;`,
 /// `record r { }`) that are several single-token deletions away.
-pub fn for_each_subtree_deletion(toks: &[String], ranges: &[(usize, usize)], mut f: impl FnMut(String)) {
+pub fn for_each_subtree_deletion(
+    toks: &[String],
+    ranges: &[(usize, usize)],
+    scope: TightScope,
+    tight: &mut Tight,
+    mut f: impl FnMut(&'static str, String),
+) {
     let mut seen = HashSet::new();
     for &(s, e) in ranges {
         if e - s >= 2 && e - s < toks.len() && seen.insert((s, e)) {
             let v: Vec<&str> = toks[..s].iter().chain(toks[e..].iter()).map(|x| x.as_str()).collect();
-            f(v.join(" "));
+            f("delete-subtree", v.join(" "));
+            if scope.mutants() {
+                if let Some(t) = tight.render(&v) {
+                    f("delete-subtree-tight", t);
+                }
+            }
         }
     }
 }
